@@ -282,6 +282,8 @@ func visTok(a *actor) string {
 		return "FD"
 	case "serve.frozen":
 		return "SF"
+	case "register.checked":
+		return "RC"
 	}
 	return "?" + a.point
 }
@@ -295,6 +297,7 @@ type world struct {
 	objMu  sync.Mutex
 	objs   map[int]*route.Route // retained route objects by id
 	kindOf map[int]actorT
+	subs   map[int]*router.Router // sub-routers of the mount registrations
 }
 
 func (w *world) handler(id int) router.HandlerFunc {
@@ -361,9 +364,7 @@ func (w *world) do(a actorT) (out string) {
 			case 1:
 				rt = w.grp.GET(pattern, w.handler(a.R))
 			case 2:
-				sub := router.MustNew()
-				sub.GET(pattern, w.handler(a.R))
-				w.r.Mount(prefix, sub)
+				w.r.Mount(prefix, w.subs[a.R]) // the sub-router was built unscheduled (its own registration yields too)
 			case 3:
 				rt = w.v1.GET(pattern, w.handler(a.R))
 			}
@@ -410,7 +411,7 @@ func (w *world) do(a actorT) (out string) {
 
 func runPhases(id string, k caseT, st *hx.Stats) string {
 	hookOn.Do(func() { router.VerifSetYield(yieldHook) })
-	w := &world{objs: map[int]*route.Route{}, kindOf: map[int]actorT{}}
+	w := &world{objs: map[int]*route.Route{}, kindOf: map[int]actorT{}, subs: map[int]*router.Router{}}
 	w.r = router.MustNew(router.WithVersioning(version.WithHeaderDetection("X-API-Version"), version.WithDefault("v1")))
 	w.grp = w.r.Group("/g")
 	w.v1 = w.r.Version("v1")
@@ -430,6 +431,14 @@ func runPhases(id string, k caseT, st *hx.Stats) string {
 		}
 	}
 	sort.Ints(ids)
+	for _, a := range k.Actors {
+		if a.K == "R" && a.RK == 2 {
+			pattern, _ := routePath(a)
+			sub := router.MustNew()
+			sub.GET(pattern, w.handler(a.R))
+			w.subs[a.R] = sub
+		}
+	}
 
 	s := &schedT{}
 	for i, a := range k.Actors {
@@ -597,50 +606,70 @@ func rq(r int, v bool) actorT { return actorT{K: "Q", R: r, Val: v} }
 func fixedPhases() []caseT {
 	return []caseT{
 		// K12: WhereInt on a served route after the first request
-		{Actors: []actorT{reg(1, 0), rq(1, false), {K: "H", R: 1}, rq(1, false)}, Plan: []int{0, 1, 1, 1, 1, 1, 1, 1, 1, 2, 3, 3, 3}},
+		{Actors: []actorT{reg(1, 0), rq(1, false), {K: "H", R: 1}, rq(1, false)}, Plan: []int{0, 0, 1, 1, 1, 1, 1, 1, 1, 1, 2, 3, 3, 3}},
 		// K12b: registration through a version router after the first request
-		{Actors: []actorT{reg(1, 0), rq(1, true), reg(2, 3), rq(2, true)}, Plan: []int{0, 1, 1, 1, 1, 1, 1, 1, 1, 2, 3, 3, 3}},
+		{Actors: []actorT{reg(1, 0), rq(1, true), reg(2, 3), rq(2, true)}, Plan: []int{0, 0, 1, 1, 1, 1, 1, 1, 1, 1, 2, 3, 3, 3}},
 		// late r.GET / group / mount: rejected
-		{Actors: []actorT{reg(1, 0), rq(1, true), reg(2, 0), reg(3, 1), reg(4, 2), {K: "N", R: 1}}, Plan: []int{0, 1, 1, 1, 2, 3, 4, 5}},
+		{Actors: []actorT{reg(1, 0), rq(1, true), reg(2, 0), reg(3, 1), reg(4, 2), {K: "N", R: 1}}, Plan: []int{0, 0, 1, 1, 1, 2, 3, 4, 5}},
 		// registration in the window "flags set, pending not yet drained" and "drained, not yet registered"
-		{Actors: []actorT{reg(1, 0), rq(1, true), reg(2, 0)}, Plan: []int{0, 1, 1, 2}},
-		{Actors: []actorT{reg(1, 0), {K: "W"}, reg(2, 0), reg(3, 3), rq(2, true), rq(3, true)}, Plan: []int{0, 1, 2, 1, 3, 1, 4, 5}},
+		{Actors: []actorT{reg(1, 0), rq(1, true), reg(2, 0)}, Plan: []int{0, 0, 1, 1, 2}},
+		{Actors: []actorT{reg(1, 0), {K: "W"}, reg(2, 0), reg(3, 3), rq(2, true), rq(3, true)}, Plan: []int{0, 0, 1, 2, 2, 1, 3, 3, 1, 4, 5}},
 		// two requests racing to freeze, Freeze and Warmup from other goroutines
-		{Actors: []actorT{reg(1, 0), reg(2, 1), rq(1, true), rq(2, true), {K: "F"}, {K: "W"}}, Plan: []int{0, 1, 2, 3, 2, 3, 5, 2, 4, 3, 2, 5}},
+		{Actors: []actorT{reg(1, 0), reg(2, 1), rq(1, true), rq(2, true), {K: "F"}, {K: "W"}}, Plan: []int{0, 0, 1, 1, 2, 3, 2, 3, 5, 2, 4, 3, 2, 5}},
 		// Where before the freeze is honoured, URLFor before / after
-		{Actors: []actorT{reg(1, 0), {K: "H", R: 1}, {K: "N", R: 1}, {K: "U", R: 1}, rq(1, false), rq(1, true), {K: "U", R: 1}, {K: "U", R: 2}}, Plan: []int{0, 1, 2, 3, 4, 4, 4, 4, 4, 4, 4, 4, 5, 6, 7}},
+		{Actors: []actorT{reg(1, 0), {K: "H", R: 1}, {K: "N", R: 1}, {K: "U", R: 1}, rq(1, false), rq(1, true), {K: "U", R: 1}, {K: "U", R: 2}}, Plan: []int{0, 0, 1, 2, 3, 4, 4, 4, 4, 4, 4, 4, 4, 5, 6, 7}},
 		// explicit Warmup first, then Where re-registers, then freeze
-		{Actors: []actorT{reg(1, 0), {K: "W"}, {K: "H", R: 1}, rq(1, false), rq(1, true)}, Plan: []int{0, 1, 1, 1, 1, 2, 3, 4}},
+		{Actors: []actorT{reg(1, 0), {K: "W"}, {K: "H", R: 1}, rq(1, false), rq(1, true)}, Plan: []int{0, 0, 1, 1, 1, 1, 2, 3, 4}},
+		// K12e: a registration passes the flag test, the first request is served, then the registration goes on —
+		// through the router (pending list already drained) and through a version router after an explicit Warmup
+		{Actors: []actorT{reg(1, 0), reg(2, 0), rq(1, true), rq(2, true)}, Plan: []int{0, 0, 1, 2, 2, 2, 2, 2, 2, 2, 2, 1, 3, 3, 3}},
+		{Actors: []actorT{reg(1, 0), {K: "W"}, reg(2, 3), rq(1, true), rq(2, true)}, Plan: []int{0, 0, 1, 1, 1, 1, 2, 3, 3, 3, 3, 3, 3, 3, 3, 2, 4, 4, 4}},
+		// … and in the freeze window itself (flags set, Warmup not yet entered)
+		{Actors: []actorT{reg(1, 0), reg(2, 1), rq(1, true), rq(2, true)}, Plan: []int{0, 0, 1, 2, 2, 1, 2, 2, 2, 2, 2, 2, 3, 3, 3}},
 	}
 }
 
 var oneShots = []actorT{reg(9, 0), reg(9, 1), reg(9, 2), reg(9, 3), {K: "H", R: 1}, {K: "N", R: 1}, {K: "U", R: 1}, {K: "F"}, {K: "W"}, rq(1, true), rq(1, false), rq(9, true)}
 var drivers = []actorT{rq(1, true), {K: "F"}, {K: "W"}, rq(1, false)}
 
-// familyOne: one driver goroutine advanced step by step, a one-shot operation inserted after k steps.
+// familyOne: one driver goroutine advanced step by step, a one-shot operation inserted after k steps; a
+// registration (two steps: flag test, enqueue) is split by `gap` further driver steps.
 func familyOne(emit func(caseT)) {
 	for _, d := range drivers {
 		for _, x := range oneShots {
+			gaps := []int{0}
+			if x.K == "R" {
+				gaps = []int{0, 1, 2, 4, 9}
+			}
 			for k := 0; k <= 8; k++ {
-				for _, named := range []bool{false, true} {
-					if named && x.K == "N" {
-						continue // duplicate name
+				for _, gap := range gaps {
+					for _, named := range []bool{false, true} {
+						if named && x.K == "N" {
+							continue // duplicate name
+						}
+						if named && gap > 0 {
+							continue
+						}
+						acts := []actorT{reg(1, 0)}
+						plan := []int{0, 0}
+						if named {
+							acts = append(acts, actorT{K: "N", R: 1})
+							plan = append(plan, 1)
+						}
+						di := len(acts)
+						acts = append(acts, d, x)
+						for j := 0; j < k; j++ {
+							plan = append(plan, di)
+						}
+						plan = append(plan, di+1)
+						for j := 0; j < gap; j++ {
+							plan = append(plan, di)
+						}
+						plan = append(plan, di+1)
+						// a request for the one-shot's route at the end shows whether it took effect
+						acts = append(acts, rq(9, true))
+						emit(caseT{Actors: acts, Plan: plan})
 					}
-					acts := []actorT{reg(1, 0)}
-					plan := []int{0}
-					if named {
-						acts = append(acts, actorT{K: "N", R: 1})
-						plan = append(plan, 1)
-					}
-					di := len(acts)
-					acts = append(acts, d, x)
-					for j := 0; j < k; j++ {
-						plan = append(plan, di)
-					}
-					plan = append(plan, di+1)
-					// a request for the one-shot's route at the end shows whether it took effect
-					acts = append(acts, rq(9, true))
-					emit(caseT{Actors: acts, Plan: plan})
 				}
 			}
 		}
@@ -651,7 +680,7 @@ func familyOne(emit func(caseT)) {
 func familyTwo(r *hx.Rand, n int, emit func(caseT)) {
 	for c := 0; c < n; c++ {
 		acts := []actorT{reg(1, hx.Pick(r, []int{0, 0, 1, 2, 3})), reg(2, hx.Pick(r, []int{0, 1, 3}))}
-		plan := []int{0, 1}
+		plan := []int{0, 0, 1, 1}
 		named := r.Chance(1, 2)
 		if named {
 			t := 1
@@ -740,7 +769,7 @@ func familyRandom(r *hx.Rand, n int, emit func(caseT)) {
 		var plan []int
 		early := r.Range(0, nr) // this many registrations are scheduled up front
 		for j := 0; j < early; j++ {
-			plan = append(plan, j)
+			plan = append(plan, j, j)
 		}
 		steps := r.Range(4, 30)
 		cur := r.Intn(len(acts))
@@ -884,6 +913,151 @@ func runURL(id string, u urlCaseT, st *hx.Stats) string {
 	return l.String() + hx.Comment(u)
 }
 
+// ---------------------------------------------------------------- free-running stress (no scheduler)
+
+// runStress starts the goroutines of a small scenario at once, unscheduled (the yield hook ignores them):
+// k requests racing to freeze, Freeze, Warmup and URLFor start together; registrations through every
+// registrar, WhereInt and SetName start as soon as the first request has been answered and race with the
+// remaining requests. What must hold for every interleaving: every request for an early route is
+// answered 200, every one of those late mutations panics and none is visible afterwards, nothing
+// deadlocks. (Mutations concurrent with the configuration phase itself are outside the router's contract —
+// "routes are registered during a single-threaded configuration phase" — and are exercised under the
+// scheduler only.) In the thorough tier the binary is a -race build: a data race makes the process exit
+// non-zero.
+func runStress(id string, r *hx.Rand, st *hx.Stats) string {
+	rt := router.MustNew(router.WithVersioning(version.WithHeaderDetection("X-API-Version"), version.WithDefault("v1")))
+	grp := rt.Group("/g")
+	v1 := rt.Version("v1")
+	h := func(id int) router.HandlerFunc {
+		return func(c *router.Context) {
+			c.Response.Header().Set("X-Route", strconv.Itoa(id))
+			_ = c.String(http.StatusOK, "ok")
+		}
+	}
+	objs := []*route.Route{rt.GET("/r1/:id", h(1)), grp.GET("/r2/:id", h(2)), v1.GET("/r3/:id", h(3))}
+	objs[0].SetName("n1")
+	if r.Chance(1, 3) {
+		rt.Warmup() // explicit warm-up before serving: registrations then go straight to the tree
+	}
+	sub := router.MustNew()
+	sub.GET("/r7/:id", h(7))
+	paths := map[int]string{1: "/r1/12", 2: "/g/r2/12", 3: "/r3/12", 4: "/r4/12", 5: "/g/r5/12", 6: "/r6/12", 7: "/m/r7/12"}
+	get := func(id int) int {
+		rec := httptest.NewRecorder()
+		rt.ServeHTTP(rec, httptest.NewRequest(http.MethodGet, paths[id], nil))
+		return rec.Code
+	}
+	var mu sync.Mutex
+	var bad []string
+	fail := func(f string, a ...any) { mu.Lock(); bad = append(bad, fmt.Sprintf(f, a...)); mu.Unlock() }
+	served := make(chan struct{})
+	var servedOnce sync.Once
+	var early, late []func()
+	for i := 0; i < r.Range(3, 7); i++ {
+		t := r.Range(1, 3)
+		early = append(early, func() {
+			c := get(t)
+			servedOnce.Do(func() { close(served) })
+			if c != http.StatusOK {
+				fail("early route %d answered %d", t, c)
+			}
+		})
+	}
+	early = append(early, func() { rt.Freeze() }, func() { rt.Warmup() }, func() { rt.Freeze() })
+	early = append(early, func() {
+		if _, err := rt.URLFor("n1", map[string]string{"id": "12"}, nil); err != nil && !errors.Is(err, router.ErrRoutesNotFrozen) {
+			fail("URLFor: %v", err)
+		}
+	})
+	mutation := func(name string, f func()) {
+		late = append(late, func() {
+			if !panics(f) {
+				fail("%s after the first request did not panic", name)
+			}
+		})
+	}
+	if r.Chance(2, 3) {
+		mutation("r.GET", func() { rt.GET("/r4/:id", h(4)) })
+	}
+	if r.Chance(2, 3) {
+		mutation("group.GET", func() { grp.GET("/r5/:id", h(5)) })
+	}
+	if r.Chance(2, 3) {
+		mutation("version.GET", func() { v1.GET("/r6/:id", h(6)) })
+	}
+	if r.Chance(1, 2) {
+		mutation("Mount", func() { rt.Mount("/m", sub) })
+	}
+	if r.Chance(1, 2) {
+		mutation("WhereInt", func() { objs[1].WhereInt("id") })
+	}
+	if r.Chance(1, 2) {
+		mutation("SetName", func() { objs[2].SetName("n3") })
+	}
+	late = append(late, func() {
+		if _, err := rt.URLFor("n1", map[string]string{"id": "12"}, nil); err != nil {
+			fail("URLFor after the first request: %v", err)
+		}
+	})
+	hx.Shuffle(r, early)
+	start := make(chan struct{})
+	var wg sync.WaitGroup
+	spawn := func(f func(), gate chan struct{}) {
+		wg.Add(1)
+		go func() {
+			defer wg.Done()
+			defer func() {
+				if p := recover(); p != nil {
+					fail("panic: %v", p)
+				}
+			}()
+			<-gate
+			f()
+		}()
+	}
+	for _, f := range early {
+		spawn(f, start)
+	}
+	for _, f := range late {
+		spawn(f, served)
+	}
+	close(start)
+	done := make(chan struct{})
+	go func() { wg.Wait(); close(done) }()
+	select {
+	case <-done:
+	case <-time.After(20 * time.Second):
+		fail("deadlock: goroutines still running after 20 s")
+	}
+	if len(bad) == 0 {
+		for id := 4; id <= 7; id++ {
+			if get(id) == http.StatusOK {
+				fail("late route %d is routable", id)
+			}
+		}
+		rec := httptest.NewRecorder()
+		rt.ServeHTTP(rec, httptest.NewRequest(http.MethodGet, "/g/r2/abc", nil))
+		if rec.Code != http.StatusOK {
+			fail("/g/r2/abc answered %d: a late WhereInt took effect", rec.Code)
+		}
+	}
+	n := len(early) + len(late)
+	l := hx.NewLine(id).Tok("S").Nat(n)
+	in := l.String()
+	l.Sep()
+	if len(bad) == 0 {
+		l.Tok("OK")
+	} else {
+		sort.Strings(bad)
+		l.Tok("BAD").Str(strings.Join(bad, "; "))
+	}
+	if st != nil {
+		st.Case(in[len(id):]+id, false)
+		st.Count("stress_runs")
+	}
+	return l.String()
+}
+
 // ---------------------------------------------------------------- main
 
 const urlOn = true
@@ -914,10 +1088,21 @@ func main() {
 		for i := 0; i < budget && urlOn; i++ {
 			fmt.Fprintln(w, runURL(fmt.Sprintf("c12u-%d-%d", a.Seed, i), genURLCase(r), st))
 		}
+		nStress := budget / 10
+		if a.Tier == "thorough" {
+			nStress = budget / 2
+		}
+		for i := 0; i < nStress && !sawDeadlock; i++ {
+			fmt.Fprintln(w, runStress(fmt.Sprintf("c12s-%d-%d", a.Seed, i), r, st))
+		}
 		st.Emit(w)
 	case "replay":
 		for _, line := range hx.StdinLines() {
 			f := strings.Fields(line)
+			if len(f) > 1 && f[1] == "S" {
+				fmt.Fprintln(w, runStress(f[0], hx.NewRand(uint64(len(line))), nil)) // unscheduled: any seed will do
+				continue
+			}
 			if len(f) > 1 && f[1] == "U" {
 				var u urlCaseT
 				id, err := hx.CaseFromComment(line, &u)
